@@ -219,6 +219,33 @@ theorem C19_routing_sound (i : Input) (ts : List Nat) (t : Nat) (host pid th : S
       ForeignSource i.cf (i.reg ++ i.cf.cloud) host pid cl th tp :=
   (C19_reachable_invariant i ts).lookup_route hto hr
 
+/-- **After the delete the name is free of the deleted mapping, for good** (both variants, every interleaving).
+After any schedule `ts`, if a `DeleteMapping` of mapping `n` has passed its index step (it is about to remove the
+record, the list entries, or to release its claim and return ok), then `n` is indexed under no name, and it stays
+unindexed after any further schedule `ts'`: the name can be claimed again by a `SetNX` of any client, and no lookup
+that reads the index from now on can reach `n` (`C19_routing_sound`: a routed mapping was read from the index). -/
+theorem C19_deleted_stays_unindexed (i : Input) (ts ts' : List Nat) (t n cl : Nat) (rest : List Op)
+    (hto : ((runSched i.cf (initCfg i) ts).1.th t).todo = .del n cl :: rest)
+    (hpc : (∃ r, ((runSched i.cf (initCfg i) ts).1.th t).pc = .dData r) ∨
+           (∃ r, ((runSched i.cf (initCfg i) ts).1.th t).pc = .dRemC r) ∨
+           (∃ r, ((runSched i.cf (initCfg i) ts).1.th t).pc = .dRemG r) ∨
+           ((runSched i.cf (initCfg i) ts).1.th t).pc = .dRelease) :
+    ∀ d, (runSched i.cf (initCfg i) (ts ++ ts')).1.st.index d ≠ some n := by
+  have hI := C19_reachable_invariant i ts
+  obtain ⟨hu, hb⟩ := hI.delete_unindexes hto hpc
+  rw [runSched_append]
+  simp only
+  have key : ∀ (ts' : List Nat) c, Inv i.cf (allOps i) (i.reg ++ i.cf.cloud) c → (∃ o, c.st.born n = some o) →
+      Unindexed c.st n → Unindexed (runSched i.cf c ts').1.st n := by
+    intro ts'
+    induction ts' with
+    | nil => intro c _ _ h; exact h
+    | cons t' ts' ih =>
+      intro c hI hb hu
+      obtain ⟨o, ho⟩ := hb
+      exact ih _ (hI.step t') ⟨o, hI.born_mono t' n o ho⟩ (hI.unindexed_step t' n ⟨o, ho⟩ hu)
+  exact key ts' _ hI hb hu
+
 /-! ### the tree as found: the witness -/
 
 def tn : String := "tunnox.net"
